@@ -57,7 +57,7 @@ func init() {
 		Controls: []string{"CtlTxn1CommitOnAnyFlow", "CtlTxn1AutoCommitElsewhere"},
 		Run:      ruleTxn1})
 	Register(&Rule{ID: "R-TXN-2", Props: []string{"C01", "C11"}, Floor: 7,
-		Doc:      "rollback on every exit: in the closure returned by cli.commandAction, deferred calls that on each of their paths reach (*Transaction).Rollback and (*Transaction).ReleaseResourcesWithErrors dominate every call that receives the *Processor or can reach (*Processor).Execute; calls made before that defer open files only through a container of their own that a dominating defer closes; signal.Notify is given action.Signals and, like the `go` statement whose function receives from that channel and calls the cancel function of the context handed to the action, dominates those calls; action.Signals (loaded GOOS; darwin and windows too in the thorough tier) contains SIGINT, SIGTERM and SIGQUIT",
+		Doc:      "rollback on every exit: in the closure returned by cli.commandAction, deferred calls that on each of their paths reach (*Transaction).Rollback and (*Transaction).ReleaseResourcesWithErrors dominate every call that receives the *Processor or can reach (*Processor).Execute; calls made before that defer open files only through a container of their own that a dominating defer closes; signal.Notify is given action.Signals and, like the `go` statement whose function receives from that channel and calls the cancel function of the context handed to the action, dominates those calls; action.Signals (loaded GOOS; darwin and windows too in the thorough tier) contains SIGINT, SIGTERM, SIGQUIT, SIGHUP and SIGPIPE — a signal outside the table ends the process by its default action, without the deferred rollback",
 		Controls: []string{"CtlTxn2LateRollbackDefer"},
 		Run:      ruleTxn2})
 	Register(&Rule{ID: "R-TXN-3", Props: []string{"C01", "C10"}, Floor: 6,
@@ -111,14 +111,33 @@ func txnSet(p *core.Prog, names ...string) map[*ssa.Function]bool {
 	return p.CanReach(names, txnBarrier)
 }
 
+// txnCallIn is Prog.CallIn, except that a call whose static callee belongs to
+// the standard library reaches csvq code only through a closure it is handed:
+// the call graph otherwise lets fmt.Sprintf & co. "reach" every function that is
+// also used as a callback somewhere (sync.Map.Range callbacks made
+// View.Restore / CreateRestorePoint reachable from 2384 stdlib functions).
+func txnCallIn(p *core.Prog, call ssa.CallInstruction, set map[*ssa.Function]bool) bool {
+	if k := core.StaticCallee(call); k != nil && k.Parent() == nil && txn7StdLib(k) && core.FnPkg(k) != nil {
+		for _, a := range call.Common().Args {
+			if mc, ok := a.(*ssa.MakeClosure); ok {
+				if f, ok := mc.Fn.(*ssa.Function); ok && set[f] {
+					return true
+				}
+			}
+		}
+		return false
+	}
+	return p.CallIn(call, set)
+}
+
 func txnReaches(p *core.Prog, call ssa.CallInstruction, names ...string) bool {
-	return p.CallIn(call, txnSet(p, names...))
+	return txnCallIn(p, call, txnSet(p, names...))
 }
 
 // txnCallsReaching lists the call sites of fn that reach one of names.
 func txnCallsReaching(p *core.Prog, fn *ssa.Function, names ...string) []ssa.CallInstruction {
 	set := txnSet(p, names...)
-	return core.CallsWhere(fn, func(c ssa.CallInstruction) bool { return p.CallIn(c, set) })
+	return core.CallsWhere(fn, func(c ssa.CallInstruction) bool { return txnCallIn(p, c, set) })
 }
 
 // txnIsCall builds an instruction predicate: a call (not a defer/go
@@ -127,7 +146,7 @@ func txnIsCall(p *core.Prog, names ...string) func(ssa.Instruction) bool {
 	set := txnSet(p, names...)
 	return func(in ssa.Instruction) bool {
 		call, ok := in.(*ssa.Call)
-		return ok && p.CallIn(call, set)
+		return ok && txnCallIn(p, call, set)
 	}
 }
 
@@ -381,7 +400,7 @@ func ruleTxn1(c *Ctx) {
 			gated, partial := false, ""
 			for _, k := range core.Calls(g) {
 				kc, isCall := k.(*ssa.Call)
-				if !isCall || !p.CallIn(kc, reachesExec) {
+				if !isCall || !txnCallIn(p, kc, reachesExec) {
 					continue
 				}
 				sig := kc.Call.Signature().Results()
@@ -604,7 +623,7 @@ func txn2Closure(c *Ctx, f *ssa.Function, full bool) {
 				recv = true
 			}
 		}
-		runs := p.CallIn(call, reachesExec)
+		runs := txnCallIn(p, call, reachesExec)
 		if recv || runs {
 			uses = append(uses, call)
 			c.Sites++
@@ -664,7 +683,7 @@ func txn2Closure(c *Ctx, f *ssa.Function, full bool) {
 	// signals → cancel
 	var execCalls []ssa.CallInstruction
 	for _, u := range uses {
-		if p.CallIn(u, reachesExec) {
+		if txnCallIn(p, u, reachesExec) {
 			if _, isCall := u.(*ssa.Call); isCall {
 				execCalls = append(execCalls, u)
 			}
@@ -943,6 +962,13 @@ func txn2SignalTable(c *Ctx) {
 	}
 }
 
+// txn2Signals: the signals that must be in action.Signals. A signal outside the
+// table ends the process by its default action, without the deferred rollback:
+// SIGINT/SIGQUIT/SIGTERM from the user or the system, SIGHUP when the terminal
+// goes away, SIGPIPE when the reader of the output closes the pipe
+// (`csvq 'UPDATE …; SELECT …' | head -1`).
+var txn2Signals = []string{"SIGINT", "SIGQUIT", "SIGTERM", "SIGHUP", "SIGPIPE"}
+
 func txn2SignalsOf(c *Ctx, p *core.Prog, goos string) {
 	label := "lib/action.Signals"
 	if goos != "" {
@@ -961,7 +987,7 @@ func txn2SignalsOf(c *Ctx, p *core.Prog, goos string) {
 	}
 	sys := p.SSA.ImportedPackage("syscall")
 	want := map[string]int64{}
-	for _, n := range []string{"SIGINT", "SIGTERM", "SIGQUIT"} {
+	for _, n := range txn2Signals {
 		if sys != nil {
 			if k, ok := sys.Members[n].(*ssa.NamedConst); ok {
 				if v, exact := constant.Int64Val(constant.ToInt(k.Value.Value)); exact {
@@ -970,8 +996,8 @@ func txn2SignalsOf(c *Ctx, p *core.Prog, goos string) {
 			}
 		}
 	}
-	if len(want) != 3 {
-		c.Unknown("anchor:"+label, "-", "cannot-analyse: syscall.SIGINT/SIGTERM/SIGQUIT do not resolve")
+	if len(want) != len(txn2Signals) {
+		c.Unknown("anchor:"+label, "-", "cannot-analyse: syscall."+strings.Join(txn2Signals, "/")+" do not all resolve")
 		return
 	}
 	// the elements stored into the backing array of the slice literal
@@ -1007,7 +1033,7 @@ func txn2SignalsOf(c *Ctx, p *core.Prog, goos string) {
 		}
 	}
 	var missing []string
-	for _, n := range []string{"SIGINT", "SIGQUIT", "SIGTERM"} {
+	for _, n := range txn2Signals {
 		if !have[want[n]] {
 			missing = append(missing, n)
 		}
@@ -1015,7 +1041,7 @@ func txn2SignalsOf(c *Ctx, p *core.Prog, goos string) {
 	if len(missing) > 0 {
 		c.Bad(label, pos, "the signal table lacks "+strings.Join(missing, ", ")+": that signal kills the process without cancel → deferred rollback, leaving lock/temp files and a half-written commit")
 	} else {
-		c.Ok(label, pos, "contains SIGINT, SIGQUIT and SIGTERM")
+		c.Ok(label, pos, "contains "+strings.Join(txn2Signals, ", "))
 	}
 }
 
@@ -1138,7 +1164,7 @@ func ruleTxn3(c *Ctx) {
 					if off != "" {
 						return false
 					}
-					if xc, ok := x.(ssa.CallInstruction); ok && p.CallIn(xc, swapSet) && !(x == in) {
+					if xc, ok := x.(ssa.CallInstruction); ok && txnCallIn(p, xc, swapSet) && !(x == in) {
 						off = "the swap at " + c.Pos(x)
 						return false
 					}
@@ -1230,7 +1256,7 @@ func ruleTxn4(c *Ctx) {
 		for _, call := range core.Calls(g) {
 			k := core.StaticCallee(call)
 			if k == nil || !primSet[k] {
-				if k == nil && p.CallIn(call, primSet) {
+				if k == nil && txnCallIn(p, call, primSet) {
 					return false, ""
 				}
 				continue
@@ -1459,7 +1485,7 @@ func txn4Guaranteed(c *Ctx, q txn4Query) (why string, pos string) {
 			if len(mc.Call.Args) == 2 && core.DependsOn(mc.Call.Args[1], infoV) {
 				marks = append(marks, txn4Mark{in: mc, info: mc.Call.Args[1]})
 			}
-		case p.CallIn(mc, marksSet):
+		case txnCallIn(p, mc, marksSet):
 			h := core.StaticCallee(mc)
 			if h == nil || !txnIsSrc(p, h) || h.Blocks == nil || q.depth >= txn4MaxDepth || len(h.Params) != len(mc.Call.Args) {
 				continue
@@ -1843,6 +1869,104 @@ func ruleTxn5(c *Ctx) {
 		{txnStoreTemp, "lib/query.(*FileInfo).IsTemporaryTable", "lib/query.(*View).CreateRestorePoint", "View.CreateRestorePoint"},
 		{txnStoreTemp, "lib/query.(*FileInfo).IsStdin", "lib/query.(*Session).updateStdinView", "Session.updateStdinView"},
 	}
+	// badGuard: a dominating condition of block b other than membership in the
+	// uncommitted set, "not the other kind of view" and nil checks; "" if none.
+	badGuard := func(b *ssa.BasicBlock, skip *ssa.If) string {
+		bad := ""
+		for _, f := range core.FactsAt(b) {
+			if f.If == skip {
+				continue
+			}
+			cond, _ := core.UnNot(f.Cond)
+			if ex, ok := cond.(*ssa.Extract); ok {
+				if lk, ok := ex.Tuple.(*ssa.Lookup); ok && lk.CommaOk && ex.Index == 1 {
+					if !f.Neg {
+						continue // present in the uncommitted map
+					}
+				}
+			}
+			if call, ok := cond.(*ssa.Call); ok && strings.HasPrefix(p.CalleeName(call), "lib/query.(*FileInfo).Is") && f.Neg {
+				continue // not the other kind of view
+			}
+			if _, _, isNil := core.NilCmp(cond); isNil {
+				continue
+			}
+			bad = c.Pos(f.If)
+		}
+		return bad
+	}
+	// armScope: a function in which an arm may live — a Range callback of the
+	// owner (also one bound to a local before the loop) or a lib/query helper the
+	// callback statically calls (two levels) — with the extra guard, if any, on
+	// the way from the callback to it.
+	type armScope struct {
+		fn       *ssa.Function
+		badOnWay string
+	}
+	scopesOf := func(owner *ssa.Function) []armScope {
+		var out []armScope
+		seen := map[*ssa.Function]bool{}
+		var add func(fn *ssa.Function, bad string, depth int)
+		add = func(fn *ssa.Function, bad string, depth int) {
+			if seen[fn] {
+				return
+			}
+			seen[fn] = true
+			out = append(out, armScope{fn, bad})
+			if depth >= 2 {
+				return
+			}
+			for _, call := range core.Calls(fn) {
+				cc, ok := call.(*ssa.Call)
+				if !ok {
+					continue
+				}
+				k := core.StaticCallee(cc)
+				if k == nil || k.Blocks == nil || k.Parent() != nil || !p.InPkg(k, "lib/query") {
+					continue
+				}
+				// only helpers that receive the view (or its FileInfo)
+				takesView := false
+				for _, a := range cc.Call.Args {
+					if n := core.NamedOf(a.Type()); n == "lib/query.View" || n == "lib/query.FileInfo" {
+						takesView = true
+					}
+				}
+				if !takesView {
+					continue
+				}
+				b := bad
+				if b == "" {
+					b = badGuard(cc.Block(), nil)
+				}
+				add(k, b, depth+1)
+			}
+		}
+		for _, cb := range owner.AnonFuncs {
+			add(cb, "", 0)
+		}
+		return out
+	}
+	// isStepOf: a call of the step itself, or of a lib/query function that calls
+	// it directly (the transitive call graph is useless here: the steps are
+	// reached from Range callbacks, which makes them "reachable" from everything
+	// that ranges over a sync map)
+	isStepOf := func(step string) func(ssa.Instruction) bool {
+		return func(in ssa.Instruction) bool {
+			call, ok := in.(*ssa.Call)
+			if !ok {
+				return false
+			}
+			k := core.StaticCallee(call)
+			if k == nil {
+				return false
+			}
+			if p.FnRef(k) == step {
+				return true
+			}
+			return txnIsSrc(p, k) && k.Parent() == nil && len(p.CallsNamed(k, step)) > 0
+		}
+	}
 	for _, a := range arms {
 		owner := c.Fn(a.owner)
 		if owner == nil {
@@ -1850,7 +1974,8 @@ func ruleTxn5(c *Ctx) {
 		}
 		key := c.KeyAt(owner, "callback arm "+strings.TrimPrefix(a.test, "lib/query.(*FileInfo).")+" -> "+a.stepName)
 		found := false
-		for _, cb := range owner.AnonFuncs {
+		for _, sc := range scopesOf(owner) {
+			cb := sc.fn
 			for _, b := range cb.Blocks {
 				iff := core.IfOf(b)
 				if iff == nil {
@@ -1860,44 +1985,35 @@ func ruleTxn5(c *Ctx) {
 				if !ok || p.CalleeName(tc) != a.test {
 					continue
 				}
+				// a helper qualifies only if it also performs the step (View.Copy etc. test IsStdin for other reasons)
+				if cb.Parent() == nil && len(core.CallsWhere(cb, func(ci ssa.CallInstruction) bool { return isStepOf(a.step)(ci.(ssa.Instruction)) })) == 0 {
+					continue
+				}
 				found = true
 				c.Touch(cb)
 				// the arm always performs the step
-				if exits := txnExitsFromBlock(b.Succs[0], txnIsCall(p, a.step)); len(exits) > 0 {
+				if exits := txnExitsFromBlock(b.Succs[0], isStepOf(a.step)); len(exits) > 0 {
 					c.Bad(key, c.Pos(iff), fmt.Sprintf("when %s holds, the callback can return (at %s) without calling %s", a.test, c.Pos(exits[0]), a.stepName))
 					continue
 				}
 				// the test itself is guarded only by membership in the uncommitted set and by the other arm's test
-				bad := ""
-				for _, f := range core.FactsAt(b) {
-					if f.If == iff {
-						continue
-					}
-					cond, _ := core.UnNot(f.Cond)
-					if ex, ok := cond.(*ssa.Extract); ok {
-						if lk, ok := ex.Tuple.(*ssa.Lookup); ok && lk.CommaOk && ex.Index == 1 {
-							if !f.Neg {
-								continue // present in the uncommitted map
-							}
-						}
-					}
-					if call, ok := cond.(*ssa.Call); ok && strings.HasPrefix(p.CalleeName(call), "lib/query.(*FileInfo).Is") && f.Neg {
-						continue // not the other kind of view
-					}
-					if _, _, isNil := core.NilCmp(cond); isNil {
-						continue
-					}
-					bad = c.Pos(f.If)
+				bad := badGuard(b, iff)
+				if bad == "" {
+					bad = sc.badOnWay
 				}
 				if bad != "" {
 					c.Bad(key, c.Pos(iff), "the arm is additionally guarded by the condition at "+bad+": some uncommitted views of this kind would be skipped")
 					continue
 				}
-				c.Ok(key, c.Pos(iff), "the arm is guarded only by membership in the uncommitted set and always calls "+a.stepName)
+				where := ""
+				if cb.Parent() == nil {
+					where = " (in helper " + p.FnRef(cb) + ", called from the callback)"
+				}
+				c.Ok(key, c.Pos(iff), "the arm is guarded only by membership in the uncommitted set and always calls "+a.stepName+where)
 			}
 		}
 		if !found {
-			c.Unknown(key, c.FnPos(owner), "cannot-analyse: no Range callback of this function branches on "+a.test)
+			c.Unknown(key, c.FnPos(owner), "cannot-analyse: no Range callback of this function (nor a helper it hands the view to) branches on "+a.test)
 		}
 	}
 
@@ -2187,7 +2303,7 @@ func txn8SwapHelper(c *Ctx, h *ssa.Function, i int) string {
 	errIdx := core.ErrorResultIndex(h)
 	var swaps []*ssa.Call
 	for _, call := range core.Calls(h) {
-		if !p.CallIn(call, swapSet) {
+		if !txnCallIn(p, call, swapSet) {
 			continue
 		}
 		cc, ok := call.(*ssa.Call)
@@ -2276,7 +2392,7 @@ func txn8CollectEncs(c *Ctx, g *ssa.Function, depth int, onSwap func(call ssa.Ca
 	p := c.P
 	encSet, swapSet := txnSet(p, txnEncodeView), txnSet(p, txnContCommit)
 	for _, call := range core.Calls(g) {
-		isEnc, isSw := p.CallIn(call, encSet), p.CallIn(call, swapSet)
+		isEnc, isSw := txnCallIn(p, call, encSet), txnCallIn(p, call, swapSet)
 		if !isEnc && !isSw {
 			continue
 		}
